@@ -80,8 +80,18 @@ func U16(tag string) uint16  { return uint16(next("u16")) }
 func U8(tag string) uint8    { return uint8(next("u8")) }
 func Int(tag string) int     { return int(int64(next("int"))) }
 func Bool(tag string) bool   { return next("bool") != 0 }
-func Len(tag string, max int) int  { return int(next("choice")) }
-func Choice(tag string, n int) int { return int(next("choice")) }
+func Len(tag string, max int) int {
+	if max <= 0 {
+		return 0 // the engine records no decision for a single alternative
+	}
+	return int(next("choice"))
+}
+func Choice(tag string, n int) int {
+	if n <= 1 {
+		return 0
+	}
+	return int(next("choice"))
+}
 func Concrete(x int) int           { return x }
 
 func Bytes(tag string, n int) []byte {
